@@ -44,6 +44,8 @@ func (s SrcSpec) String() string {
 		return fmt.Sprintf("fault(%s,%s)@read%d", s.Err, st, s.Index)
 	case "uniform":
 		return "uniform(" + s.Size + ")"
+	case "eofwith":
+		return "eof-with-last-bytes(" + s.Size + ")"
 	}
 	return "full"
 }
@@ -88,6 +90,14 @@ func MakeSource(spec SrcSpec, data []byte) *seam.Source {
 	case "uniform":
 		src.Policy = func(call, req, rem int) (seam.Answer, bool) {
 			return seam.Answer{N: sizeOf(spec.Size, req)}, true
+		}
+	case "eofwith":
+		// the stream ends exactly after the last sample and the final Read reports (n>0, io.EOF)
+		src.EOFWithData = true
+		if spec.Size != "" {
+			src.Policy = func(call, req, rem int) (seam.Answer, bool) {
+				return seam.Answer{N: sizeOf(spec.Size, req)}, true
+			}
 		}
 	case "fault":
 		shortDone := false
@@ -144,6 +154,18 @@ type Params struct {
 	Srcs     []SrcSpec `json:"srcs,omitempty"`  // several source behaviours explored one after the other in one sub-process
 	Mode     string    `json:"mode"`            // c08 | c09 | c10
 	Prime    string    `json:"prime,omitempty"` // another parallel workflow called first in the same execution, on an empty source
+	// Twice (c08/c10): the workflow is called twice on the same source, whose stream holds a second
+	// set of samples with another scenario; both results must equal the sequential twin's two results,
+	// and both must have consumed the same number of stream bytes.
+	Twice bool `json:"twice,omitempty"`
+	// Repeat (c09): the workflow is called Repeat times on fresh failing sources before the judged call
+	// (a resource leaked by a failing call - a limiter slot, a pooled buffer - shows in the later ones).
+	Repeat int `json:"repeat,omitempty"`
+	// Pair: "seq" | "fast": a call of the same workflow (sequential or parallel variant) on ANOTHER, healthy
+	// source (scenario all-pass) runs concurrently in a second thread; both calls must return exactly what
+	// they return alone. JudgeSeq: the judged call is the sequential variant.
+	Pair     string `json:"pair,omitempty"`
+	JudgeSeq bool   `json:"judge_seq,omitempty"`
 }
 
 // ---------- scenario catalogue (deterministic, shared by parent and sub-process) ----------
@@ -344,12 +366,34 @@ func handleOne(t e1.Task, p Params) (*e1.Result, map[uint64]struct{}) {
 	}
 	seam.InstallStubs()
 	ref := SeqReference(w, sc)
+	var sc2 *seam.Scenario
+	var ref2 Ref
+	refPos := 0
+	if p.Twice {
+		name2 := "item0-below-threshold"
+		if sc.Name != "all-pass" {
+			name2 = "all-pass"
+		}
+		sc2 = scenarioByName(w, name2)
+		r1, r2 := seam.NewRun(sc), seam.NewRun(sc2)
+		ss := &seam.Source{Data: append(r1.Stream(w.S, w.N), r2.Stream(w.S, w.N)...)}
+		_, _ = w.Seq(ss)
+		v2, e2 := w.Seq(ss)
+		ref2 = Ref{Verdict: v2, Item: seam.NamedItem(e2), Err: fmt.Sprint(e2)}
+		refPos = ss.Pos()
+		r1.Close()
+		r2.Close()
+	}
 	orders := map[uint64]struct{}{}
 	assign := map[uint64]struct{}{}
 	// one reusable stream buffer; ids are patched per execution
 	tmpl := seam.NewRun(sc)
 	base := tmpl.Stream(w.S, w.N)
 	tmpl.Close()
+	var both []byte
+	if p.Twice {
+		both = append(append([]byte{}, base...), base...)
+	}
 	cfg := explore.Config{Name: t.Name, Bound: t.Bound, CostAll: t.CostAll, Shard: t.Shard, NShards: t.NShards, MaxExecs: t.MaxExec,
 		Opt: vsched.Options{NumCPU: t.W, Policy: t.Policy, MaxSteps: 400000}}
 	if t.Budget > 0 {
@@ -359,20 +403,69 @@ func handleOne(t e1.Task, p Params) (*e1.Result, map[uint64]struct{}) {
 		run := seam.NewRun(sc)
 		run.PatchStream(base, w.S, w.N)
 		src := MakeSource(p.Src, base)
-		var verdict bool
-		var err error
+		var run2 *seam.Run
+		if p.Twice {
+			run2 = seam.NewRun(sc2)
+			run.PatchStream(both[:len(base)], w.S, w.N)
+			run2.PatchStream(both[len(base):], w.S, w.N)
+			src = MakeSource(p.Src, both)
+		}
+		var verdict, verdict2 bool
+		var err, err2 error
+		earlier := ""
 		returned := false
+		call := w.Fast
+		if p.JudgeSeq {
+			call = w.Seq
+		}
+		var runO *seam.Run
+		var otherV bool
+		var otherErr error
+		var otherData []byte
+		if p.Pair != "" {
+			runO = seam.NewRun(scenarioByName(w, "all-pass"))
+			otherData = runO.Stream(w.S, w.N)
+		}
 		body := func() {
 			vsched.SetStateDigest(run.Digest)
 			if pw := wf.ByName(p.Prime); pw != nil {
 				// state left behind by an earlier call of another workflow (pooled buffers, caches) must not matter
 				_, _ = pw.Fast(&seam.Source{Data: nil})
 			}
-			verdict, err = w.Fast(src)
+			for r := 0; r < p.Repeat; r++ {
+				if v, e := w.Fast(MakeSource(p.Src, base)); (v || e == nil) && earlier == "" {
+					earlier = fmt.Sprintf("call %d of %d consecutive calls on failing sources returned (%v, %v)", r+1, p.Repeat+1, v, e)
+				}
+			}
+			var pairWG vsched.WaitGroup
+			if p.Pair != "" {
+				other := w.Fast
+				if p.Pair == "seq" {
+					other = w.Seq
+				}
+				pairWG.Add(1)
+				vsched.Go(func() {
+					otherV, otherErr = other(&seam.Source{Data: otherData})
+					pairWG.Done()
+				})
+			}
+			verdict, err = call(src)
+			if p.Pair != "" {
+				pairWG.Wait()
+			}
+			if p.Twice {
+				verdict2, err2 = w.Fast(src)
+			}
 			returned = true
 		}
 		check := func(x *vsched.Exec) explore.Verdict {
 			defer run.Close()
+			if run2 != nil {
+				defer run2.Close()
+			}
+			if runO != nil {
+				defer runO.Close()
+			}
 			item := seam.NamedItem(err)
 			v := explore.Verdict{}
 			jd := run.Judged()
@@ -398,6 +491,9 @@ func handleOne(t e1.Task, p Params) (*e1.Result, map[uint64]struct{}) {
 			orders[oh] = struct{}{}
 			_ = assign
 			v.Signature = fmt.Sprintf("%s ret=%v verdict=%v item=%d missing=%d torn=%d", x.Outcome, returned, verdict, item, missing, len(run.Torn))
+			if p.Twice {
+				v.Signature += fmt.Sprintf(" second=%v/%d", verdict2, seam.NamedItem(err2))
+			}
 			errs := fmt.Sprint(err)
 			switch {
 			case x.Outcome == vsched.OutPanic:
@@ -409,7 +505,9 @@ func handleOne(t e1.Task, p Params) (*e1.Result, map[uint64]struct{}) {
 			case x.Outcome == vsched.OutHorizon:
 				v.Violation = "livelock: step horizon exceeded"
 			case p.Mode == "c09":
-				if verdict || err == nil {
+				if earlier != "" {
+					v.Violation = earlier
+				} else if verdict || err == nil {
 					v.Violation = fmt.Sprintf("source failed (%s) but the workflow returned (%v, %v)", p.Src, verdict, errs)
 				}
 			default:
@@ -428,6 +526,12 @@ func handleOne(t e1.Task, p Params) (*e1.Result, map[uint64]struct{}) {
 					v.Violation = "false verdict with nil error"
 				case missing > 0:
 					v.Violation = fmt.Sprintf("%d (sample,item) pairs of the first %d items were never judged", missing, w.Items)
+				case p.Pair != "" && (!otherV || otherErr != nil):
+					v.Violation = fmt.Sprintf("a concurrent call on another, healthy source returned (%v, %v); alone it returns (true, <nil>)", otherV, otherErr)
+				case p.Twice && (verdict2 != ref2.Verdict || (!verdict2 && seam.NamedItem(err2) != ref2.Item)):
+					v.Violation = fmt.Sprintf("second call on the same source: parallel (%v, %v), sequential (%v, %s)", verdict2, err2, ref2.Verdict, ref2.Err)
+				case p.Twice && src.Pos() != refPos:
+					v.Violation = fmt.Sprintf("two parallel calls consumed %d stream bytes, two sequential calls consume %d", src.Pos(), refPos)
 				}
 			}
 			return v
